@@ -61,6 +61,8 @@ import PyIpmi.Lemmas.SessionOrder
 import PyIpmi.Lemmas.SessionMonitor
 import PyIpmi.Lemmas.SessionWire
 import PyIpmi.Model.Md5
+import PyIpmi.Model.SessionShape
+import PyIpmi.Gen.SessionShape
 namespace PyIpmi.Props.C06
 open PyIpmi PyIpmi.RmcpWire PyIpmi.Session PyIpmi.Gen.RmcpFormats PyIpmi.Spec.Lan PyIpmi.Spec.BmcSession
 
@@ -162,6 +164,24 @@ theorem handshake_bmc (md5 : List Nat → List Nat) (hmd5 : ∀ x, (md5 x).lengt
     (hs.activate d3 (by simp)).2, hs.setPrivChain.1, hs.setPriv d4 (by simp)⟩
 
 /-! ### authentication type -/
+
+
+/-- The session methods of `pyipmi/interfaces/rmcp.py`, read statement by statement from the AST of today's
+working tree (`Gen/SessionShape.lean`), are the ones the model `Session.establish` / `close` mirrors
+(`Model/SessionShape.lean`): order of the five handshake messages, no session object until the challenge has
+been received, authentication type chosen before the challenge, temporary id before and granted id, initial
+sequence number and `activated` after Activate Session, the fields each request takes its values from, Close
+Session naming `self._session.sid`, the keep-alive callable.  Re-ordering a step or taking a value from another
+place regenerates the left-hand sides and this stops building. -/
+theorem handshake_shape :
+    PyIpmi.Gen.SessionShape.establishSession = PyIpmi.Session.Shape.establishSession ∧
+    PyIpmi.Gen.SessionShape.closeSession = PyIpmi.Session.Shape.closeSession ∧
+    PyIpmi.Gen.SessionShape.getChannelAuthCap = PyIpmi.Session.Shape.getChannelAuthCap ∧
+    PyIpmi.Gen.SessionShape.getSessionChallenge = PyIpmi.Session.Shape.getSessionChallenge ∧
+    PyIpmi.Gen.SessionShape.activateSession = PyIpmi.Session.Shape.activateSession ∧
+    PyIpmi.Gen.SessionShape.setSessionPrivilegeLevel = PyIpmi.Session.Shape.setSessionPrivilegeLevel ∧
+    PyIpmi.Gen.SessionShape.getDeviceId = PyIpmi.Session.Shape.getDeviceId :=
+  ⟨rfl, rfl, rfl, rfl, rfl, rfl, rfl⟩
 
 theorem auth_strength_order : implemented = [0, 4, 2] ∧ implOrder = [2, 4, 0] := by decide
 
